@@ -27,7 +27,7 @@ import (
 type CutSpec struct {
 	Mode      string   `json:"mode"`              // quiet | after-change | at-response | initial
 	K         int      `json:"k,omitempty"`       // at-response / initial: the stream dies at its K-th response from arming
-	Drop      bool     `json:"drop,omitempty"`    // ... and that response is lost in transit instead of applied
+	Fate      string   `json:"fate,omitempty"`    // of that response: applied (default) | lost (in transit; the server's Send succeeded) | failed-send (Send returned an error)
 	Trigger   []Op     `json:"trigger,omitempty"` // the change made right before the cut
 	Away      []Op     `json:"away,omitempty"`    // changes while disconnected
 	Second    bool     `json:"second_server,omitempty"`
@@ -96,7 +96,7 @@ func genC05(r *wire.Rng) *History {
 	}
 	if c.Mode == "at-response" || c.Mode == "initial" {
 		c.K = 1 + r.Intn(5)
-		c.Drop = r.Chance(1, 3)
+		c.Fate = wire.Pick(r, []string{"applied", "applied", "lost", "failed-send"})
 	}
 	n := r.Intn(5)
 	for i := 0; i < n; i++ {
@@ -112,12 +112,13 @@ func genC05(r *wire.Rng) *History {
 }
 
 // armCut makes the live stream die at its k-th response from now.
-func (e *envoy) armCut(k int, drop bool) {
+func (e *envoy) armCut(k int, fate string) {
 	e.mu.Lock()
 	defer e.mu.Unlock()
 	if e.st != nil && !e.st.dead {
 		e.st.cutAfter = e.st.nResp + k
-		e.st.cutDrop = drop
+		e.st.cutDrop = fate == "lost" || fate == "failed-send"
+		e.st.cutErr = fate == "failed-send"
 	}
 }
 
@@ -181,7 +182,7 @@ func runC05(h *History, stt *stats) result {
 	}
 	if c.Mode == "initial" {
 		for _, e := range both {
-			e.connect(st, connectOpts{cutAfter: c.K, cutDrop: c.Drop})
+			e.connect(st, connectOpts{cutAfter: c.K, cutDrop: c.Fate == "lost" || c.Fate == "failed-send", cutErr: c.Fate == "failed-send"})
 		}
 		if !waitDeadOrQuiet() {
 			return timeoutResult("initial exchange", clientInfo(sotw, delta))
@@ -212,7 +213,7 @@ func runC05(h *History, stt *stats) result {
 			}
 		case "at-response":
 			for _, e := range both {
-				e.armCut(c.K, c.Drop)
+				e.armCut(c.K, c.Fate)
 			}
 			if r := applyStep(st, w, c.Trigger, stt); r != nil {
 				return *r
@@ -226,8 +227,8 @@ func runC05(h *History, stt *stats) result {
 	for _, e := range both {
 		if e.isDead() {
 			stt.Cuts["scripted-response-cut"]++
-			if c.Drop {
-				stt.Cuts["response-lost-in-transit"]++
+			if c.Fate != "" {
+				stt.Cuts["response-"+c.Fate]++
 			}
 		}
 		lt := e.lastResponseType()
@@ -292,9 +293,32 @@ func runC05(h *History, stt *stats) result {
 	fd := newEnvoy("fresh-delta", true, "app-fresh-delta")
 	fd.explicit = h.Explicit
 	fresh := map[string]*envoy{"sotw": fs, "delta": fd}
-	if !target.quiesce(sotw, delta) {
+	if !target.quiesceLoose(sotw, delta) {
 		return timeoutResult("after reconnect", merge(clientInfo(sotw, delta), map[string]any{"cut": cutLog}))
 	}
+	info := func() map[string]any {
+		return merge(map[string]any{"cut": cutLog}, clientInfo(sotw, delta))
+	}
+	// (a) every first request was answered
+	var unanswered []string
+	for _, e := range both {
+		e.mu.Lock()
+		for _, t := range envoyTypes {
+			wanted := t == "CDS" || t == "LDS" || len(e.subs[t]) > 0
+			if firstSent[e.label][t] && e.st.resps[t] == 0 && wanted {
+				unanswered = append(unanswered, e.label+":"+t)
+			}
+		}
+		if e.st.edsDue && len(e.subs["EDS"]) > 0 {
+			unanswered = append(unanswered, e.label+":EDS-after-CDS")
+		}
+		e.mu.Unlock()
+	}
+	sort.Strings(unanswered)
+	if len(unanswered) > 0 {
+		return result{Clause: "reconnect-request-unanswered", Detail: merge(map[string]any{"unanswered": unanswered}, info())}
+	}
+
 	fs.connect(target, connectOpts{})
 	fd.connect(target, connectOpts{})
 	defer func() {
@@ -323,30 +347,6 @@ func runC05(h *History, stt *stats) result {
 	if errs := append(sotw.errors(), delta.errors()...); len(errs) > 0 {
 		return result{Clause: "harness-client-error", Detail: map[string]any{"phase": "after reconnect", "errors": errs}}
 	}
-	info := func() map[string]any {
-		return merge(map[string]any{"cut": cutLog}, clientInfo(sotw, delta))
-	}
-
-	// (a) every first request was answered
-	var unanswered []string
-	for _, e := range both {
-		e.mu.Lock()
-		for _, t := range envoyTypes {
-			wanted := t == "CDS" || t == "LDS" || len(e.subs[t]) > 0
-			if firstSent[e.label][t] && e.st.resps[t] == 0 && wanted {
-				unanswered = append(unanswered, e.label+":"+t)
-			}
-		}
-		if e.st.edsDue && len(e.subs["EDS"]) > 0 {
-			unanswered = append(unanswered, e.label+":EDS-after-CDS")
-		}
-		e.mu.Unlock()
-	}
-	sort.Strings(unanswered)
-	if len(unanswered) > 0 {
-		return result{Clause: "reconnect-request-unanswered", Detail: merge(map[string]any{"unanswered": unanswered}, info())}
-	}
-
 	// (b) + (c)
 	fh := fd.snapshot()
 	gone := 0
